@@ -323,6 +323,7 @@ func runC11(c *Ctx) {
 		sort.Strings(consts)
 		R.Ob("checkNotifySet/compares with the four NOTIFY constants", c.P.Pos(f.Pos()), strings.Join(dedup(consts), ",") == "DELAY,FAILURE,NEVER,SUCCESS", "constants compared: "+strings.Join(consts, ","))
 		c.obMustUnder("empty set refused", f, []string{"call:errors.New"}, `builtin:len(param0) == 0`)
+		ruleNotifyCheckerExact(c)
 	}
 	if f := c.A.Func("decodeTypedAddress"); f != nil {
 		allInstrs(f, func(in ssa.Instruction) {
